@@ -140,58 +140,76 @@ Definition k_map (t : N) : bool := (t =? tMap) || (t =? tAttribute).
 Definition map_res {A B} (f : A -> B) (r : result A) : result B :=
   match r with Ok a => Ok (f a) | Err e => Err e | Panic => Panic end.
 
-(** readNextMessage (with its attribute loop), readA's loop and readE's loop *)
+(** Pieces of readNextMessage's loop body.  [rn], [ral], [rel] stand for the recursive calls
+    (readNextMessage itself for the attribute "continue", the loop of readA, the loop of readE), [cf] is
+    the fuel of the chunk loop. *)
+
+(** what happens with the (message, error) pair a reader returned for type byte [typ] *)
+Definition fin_msg (typ : N) (rn : option msg -> prog (result msg)) (attrs : option msg)
+    (r : result msg) : prog (result msg) :=
+  match r with
+  | Ok m =>
+    if typ =? tAttribute then rn (Some m)              (* attrs = &a; continue *)
+    else Ret (Ok (with_attrs m attrs))
+  | Err e => if e =? eOldNull then Ret (Ok (Msg tNull [] 0%Z [] None)) else Ret (Err e)
+  | Panic => Ret Panic
+  end.
+
+(** readA(i, length) *)
+Definition read_a (ral : Z -> Z -> Z -> list msg -> prog (result (list msg))) (length : Z)
+    : prog (result (list msg * Z)) :=
+  if (length <? 0)%Z then Ret (Err eBadLength)
+  else
+    let cap := Z.min length max_prealloc_msgs in
+    bindr (alloc_make msg_size cap) (fun _ =>
+    bindr (ral length 0%Z cap []) (fun l => Ret (Ok (l, length)))).
+
+(** readE(i) *)
+Definition read_e (rel : list msg -> prog (result (list msg))) : prog (result (list msg * Z)) :=
+  bindr (rel []) (fun l => Ret (Ok (l, zlen l))).
+
+Definition agg_msg (typ : N) (r : result (list msg * Z)) : result msg :=
+  map_res (fun p => Msg typ [] (snd p) (fst p) None) r.
+
+Definition str_msg (typ : N) (r : result bytes) : result msg :=
+  map_res (fun bs => Msg typ bs (zlen bs) [] None) r.
+
+(** fn := readers[typ]; m, err = fn(i); m.typ = typ; … *)
+Definition dispatch (typ : N) (rn : option msg -> prog (result msg))
+    (ral : Z -> Z -> Z -> list msg -> prog (result (list msg)))
+    (rel : list msg -> prog (result (list msg))) (cf : nat) (attrs : option msg) : prog (result msg) :=
+  let fin := fin_msg typ rn attrs in
+  if k_blob typ then bind (read_blob_string cf) (fun r => fin (str_msg typ r))
+  else if k_line typ then bind read_s (fun r => fin (str_msg typ r))
+  else if typ =? tInteger then bind read_i (fun r => fin (map_res (fun v => Msg typ [] v [] None) r))
+  else if k_null typ then bind read_null (fun r => fin (map_res (fun _ => Msg typ [] 0%Z [] None) r))
+  else if typ =? tBool then bind read_boolean (fun r => fin (map_res (fun v => Msg typ [] v [] None) r))
+  else if k_array typ then
+    bind read_i (fun r =>
+      match r with
+      | Ok length => if (length =? -1)%Z then fin (Err eOldNull) else bind (read_a ral length) (fun r => fin (agg_msg typ r))
+      | Err e => if e =? eChunked then bind (read_e rel) (fun r => fin (agg_msg typ r)) else fin (Err e)
+      | Panic => Ret Panic
+      end)
+  else if k_map typ then
+    bind read_i (fun r =>
+      match r with
+      | Ok length => bind (read_a ral (wrap64 (length * 2))) (fun r => fin (agg_msg typ r))
+      | Err e => if e =? eChunked then bind (read_e rel) (fun r => fin (agg_msg typ r)) else fin (Err e)
+      | Panic => Ret Panic
+      end)
+  else Ret (Err eUnknownType).
+
+Definition read_next_body (rn : option msg -> prog (result msg))
+    (ral : Z -> Z -> Z -> list msg -> prog (result (list msg)))
+    (rel : list msg -> prog (result (list msg))) (cf : nat) (attrs : option msg) : prog (result msg) :=
+  bindr (do_op OReadByte) (fun tb => dispatch (hd 0 tb) rn ral rel cf attrs).
+
+(** readNextMessage, the loop of readA ([n] elements read, buffer of [cap] elements) and the loop of readE *)
 Fixpoint read_next (fuel : nat) (attrs : option msg) : prog (result msg) :=
   match fuel with
   | O => Ret (Err eOutOfFuel)
-  | S f =>
-    bindr (do_op OReadByte) (fun tb =>
-      let typ := hd 0 tb in
-      let fin (r : result msg) : prog (result msg) :=
-        match r with
-        | Ok m =>
-          if typ =? tAttribute then read_next f (Some m)
-          else Ret (Ok (with_attrs m attrs))
-        | Err e => if e =? eOldNull then Ret (Ok (Msg tNull [] 0%Z [] None)) else Ret (Err e)
-        | Panic => Ret Panic
-        end in
-      (* readA(i, length) *)
-      let read_a (length : Z) : prog (result (list msg * Z)) :=
-        if (length <? 0)%Z then Ret (Err eBadLength)
-        else
-          let cap := Z.min length max_prealloc_msgs in
-          bindr (alloc_make msg_size cap) (fun _ =>
-          bindr (read_a_loop f length 0 cap []) (fun l => Ret (Ok (l, length)))) in
-      (* readE(i) *)
-      let read_e : prog (result (list msg * Z)) :=
-        bindr (read_e_loop f []) (fun l => Ret (Ok (l, zlen l))) in
-      let agg (r : result (list msg * Z)) : result msg :=
-        map_res (fun p => Msg typ [] (snd p) (fst p) None) r in
-      if k_blob typ then
-        bind (read_blob_string f) (fun r => fin (map_res (fun bs => Msg typ bs (zlen bs) [] None) r))
-      else if k_line typ then
-        bind read_s (fun r => fin (map_res (fun bs => Msg typ bs (zlen bs) [] None) r))
-      else if typ =? tInteger then
-        bind read_i (fun r => fin (map_res (fun v => Msg typ [] v [] None) r))
-      else if k_null typ then
-        bind read_null (fun r => fin (map_res (fun _ => Msg typ [] 0%Z [] None) r))
-      else if typ =? tBool then
-        bind read_boolean (fun r => fin (map_res (fun v => Msg typ [] v [] None) r))
-      else if k_array typ then
-        bind read_i (fun r =>
-          match r with
-          | Ok length => if (length =? -1)%Z then fin (Err eOldNull) else bind (read_a length) (fun r => fin (agg r))
-          | Err e => if e =? eChunked then bind read_e (fun r => fin (agg r)) else fin (Err e)
-          | Panic => Ret Panic
-          end)
-      else if k_map typ then
-        bind read_i (fun r =>
-          match r with
-          | Ok length => bind (read_a (wrap64 (length * 2))) (fun r => fin (agg r))
-          | Err e => if e =? eChunked then bind read_e (fun r => fin (agg r)) else fin (Err e)
-          | Panic => Ret Panic
-          end)
-      else Ret (Err eUnknownType))
+  | S f => read_next_body (read_next f) (read_a_loop f) (read_e_loop f) f attrs
   end
 with read_a_loop (fuel : nat) (length n cap : Z) (acc : list msg) : prog (result (list msg)) :=
   match fuel with
@@ -199,8 +217,16 @@ with read_a_loop (fuel : nat) (length n cap : Z) (acc : list msg) : prog (result
   | S f =>
     if (n =? length)%Z then Ret (Ok acc)
     else
+      (* msgs[n], err = readNextMessage(i): the index is checked when the call has returned *)
       let next (cap' : Z) :=
-        bindr (read_next f None) (fun m => read_a_loop f length (n + 1) cap' (acc ++ [m])) in
+        bind (read_next f None) (fun r =>
+          if (n <? cap')%Z then
+            match r with
+            | Ok m => read_a_loop f length (n + 1) cap' (acc ++ [m])
+            | Err e => Ret (Err e)
+            | Panic => Ret Panic
+            end
+          else Ret Panic) in
       if (n =? cap)%Z then
         let cap' := Z.min length (n * 2) in
         bindr (alloc_make msg_size cap') (fun _ => next cap')
